@@ -11,12 +11,12 @@ import (
 // Reference model of Buffer + consumers (DESIGN Appendix A.1). Values are unique int tokens.
 
 type bmCons struct {
-	id                  int
-	committed, delta    int
-	closing             bool // its context is cancelled: Gets fail
-	claimed             bool // some Close call (explicit or the automatic one) owns the close
-	explicit            bool // the owner is an explicit Close call (its end step unregisters)
-	registered          bool
+	id               int
+	committed, delta int
+	closing          bool // its context is cancelled: Gets fail
+	claimed          bool // some Close call (explicit or the automatic one) owns the close
+	explicit         bool // the owner is an explicit Close call (its end step unregisters)
+	registered       bool
 }
 
 type bmState struct {
@@ -432,6 +432,12 @@ func classifyBuffer(ops []*linOp) string {
 
 // bufferCheck: linearization + the C12 end-of-run clauses of the generic finish().
 func bufferCheck(policy func(int, []int) int) func(r *vrt.Result) string {
+	return bufferCheckSig(policy, "close")
+}
+
+// bufferCheckSig: blockSig names a call that never returns ("close-deadlock" belongs to C12,
+// "lost-wakeup-deadlock" to C05's blocked-Get drivers).
+func bufferCheckSig(policy func(int, []int) int, blockSig string) func(r *vrt.Result) string {
 	lin := bufferLinCheck(policy)
 	return func(r *vrt.Result) string {
 		if r.Status == vrt.StSteps {
@@ -444,7 +450,7 @@ func bufferCheck(policy func(int, []int) int) func(r *vrt.Result) string {
 			return m
 		}
 		if r.Status != vrt.StOK {
-			return fmt.Sprintf("close-%s: a call never returned: %v", r.Status, r.Blocked)
+			return fmt.Sprintf("%s-%s: a call never returned: %v", blockSig, r.Status, r.Blocked)
 		}
 		for _, e := range r.Events {
 			switch e.Kind {
